@@ -153,7 +153,7 @@ class Lab:
                 self.on_step()
             if main.done():
                 return
-            opts: List[str] = sorted(g for g, f in self.gates.items() if not f.done())
+            opts: List[str] = sorted(g for g, f in self.gates.items() if not f.done() and not g.startswith("hang:"))
             opts += sorted(self.env)
             if loop.next_timer() is not None and self.ticks < self.max_ticks and tick_allowed():
                 opts.append("~tick")
@@ -176,7 +176,10 @@ class Lab:
         raise sym.HarnessError("scheduler step budget exhausted")
 
     def close(self) -> None:
+        n = len(self.ev)
         self.loop.shutdown()
+        self.late = self.ev[n:]  # produced only by the forced cancellation at tear-down
+        del self.ev[n:]
 
 
 # ------------------------------------------------------------------------- scripted parts
@@ -278,12 +281,14 @@ def make_middleware(lab: Lab, idx: int, overridden: Dict[str, str], replace_mess
                 if replace_message:
                     return message.model_copy(update={"labels": {**message.labels, f"seen_by_{idx}": hook}})
                 return message
+            lab.rec("hook_end", idx, hook, message.task_id)
             return None
 
         if kind == "sync":
             return body
 
         async def abody(self: Any, message: Any, *rest: Any) -> Any:
+            lab.rec("hook_begin", idx, hook, message.task_id)
             await lab.gate(f"hook:{idx}:{hook}:{message.task_id}")
             return body(self, message, *rest)
 
